@@ -280,7 +280,7 @@ func c19IndexKey(repoURL string) (string, string) {
 	if err != nil {
 		return "", iu
 	}
-	return u.Host + u.Path, iu
+	return c19WireHost(u.Host) + u.Path, iu
 }
 
 // c19TmpBase prefers a memory file system: DownloadTo writes through fileutil.AtomicWriteFile,
@@ -307,39 +307,50 @@ func c19TmpBase() string {
 
 // ---------------------------------------------------------------- generator
 
-var c19Hosts = []string{"repo.example", "charts.corp.test", "h.test"}
+var c19Hosts = []string{"repo.example", "charts.corp.test", "h.test", "[::1]"}
 
 func c19FlipScheme(s string) string {
-	if s == "http" {
+	if strings.ToLower(s) == "http" {
 		return "https"
 	}
 	return "http"
 }
 
 func c19DefaultPort(s string) string {
-	if s == "https" {
+	if strings.ToLower(s) == "https" {
 		return "443"
 	}
 	return "80"
 }
 
+// c19SplitHost splits the authority of a generated URL into userinfo ("" or "u:p@"), host name
+// (an IPv6 literal keeps its brackets) and the port as spelled, colon included ("" = none).
+func c19SplitHost(host string) (ui, name, port string) {
+	if i := strings.LastIndex(host, "@"); i >= 0 {
+		ui, host = host[:i+1], host[i+1:]
+	}
+	name = host
+	if i := strings.LastIndex(host, ":"); i >= 0 && !strings.HasSuffix(host, "]") {
+		name, port = host[:i], host[i:]
+	}
+	return
+}
+
 // c19Variant returns (scheme, host-with-port) related to (scheme, host) in a named way.
 func c19Variant(r *rand.Rand, scheme, host string) (string, string, string) {
-	h := host
-	if i := strings.LastIndex(h, "@"); i >= 0 {
-		h = h[i+1:]
-	}
-	name := h
-	if i := strings.Index(name, ":"); i >= 0 {
-		name = name[:i]
-	}
-	switch k := r.Intn(16); k {
+	_, name, port := c19SplitHost(host)
+	h := name + port
+	v6 := strings.HasPrefix(name, "[")
+	switch k := r.Intn(22); k {
 	case 0, 1, 2:
 		return "same", scheme, host
 	case 3, 14:
 		return "scheme", c19FlipScheme(scheme), host // same host:port string, other scheme
 	case 4:
-		return "case", scheme, strings.ToUpper(name[:1]) + name[1:] + h[len(name):]
+		if v6 {
+			return "case", scheme, strings.ToUpper(name) + port
+		}
+		return "case", scheme, strings.ToUpper(name[:1]) + name[1:] + port
 	case 5:
 		return "port", scheme, name + ":8080"
 	case 6:
@@ -350,20 +361,62 @@ func c19Variant(r *rand.Rand, scheme, host string) (string, string, string) {
 		if r.Intn(6) == 0 {
 			return "suffix-raw", scheme, h + ".evil.test" // with a port this is not a valid URL: no request must result
 		}
-		return "suffix", scheme, name + ".evil.test" + h[len(name):]
+		if v6 {
+			return "other", scheme, "cdn.other.test"
+		}
+		return "suffix", scheme, name + ".evil.test" + port
 	case 9:
+		if v6 {
+			return "other-v6", scheme, "[::2]" + port
+		}
 		return "prefix", scheme, "evil" + h
 	case 10:
+		if v6 {
+			return "other-v6", scheme, "[2001:db8::1]" + port
+		}
 		return "subdomain", scheme, "cdn." + h
 	case 11:
 		return "userinfo", scheme, "x:y@" + h
 	case 12:
-		return "dot", scheme, name + "." + h[len(name):]
+		if v6 {
+			return "noport", scheme, name
+		}
+		return "dot", scheme, name + "." + port
 	case 13:
 		return "noport", scheme, name
+	case 15, 16:
+		// the default port of the OTHER protocol: a different service of the same host name
+		return "defport-other", scheme, name + ":" + c19DefaultPort(c19FlipScheme(scheme))
+	case 17:
+		return "emptyport", scheme, name + ":" // "host:" names the default port
+	case 18:
+		return "scheme-upper", strings.ToUpper(scheme), host // url.Parse lower-cases the scheme
+	case 19:
+		return "port-zero", scheme, name + ":0" + c19DefaultPort(scheme) // numerically the default port
+	case 20:
+		// both at once: other scheme AND that scheme's default port spelled out
+		return "scheme-defport", c19FlipScheme(scheme), name + ":" + c19DefaultPort(c19FlipScheme(scheme))
 	default:
 		return "other", scheme, "cdn.other.test"
 	}
+}
+
+// another host derived from h: a sub-domain label in front, or another IPv6 literal
+func c19OtherHost(label, h string) string {
+	ui, name, port := c19SplitHost(h)
+	if strings.HasPrefix(name, "[") {
+		return ui + "[::" + fmt.Sprintf("%x", len(label)+2) + "]" + port
+	}
+	return ui + label + "." + name + port
+}
+
+// the Host header net/http sends for a URL host: an empty port ("host:") is removed
+// (http.NewRequest: removeEmptyPort)
+func c19WireHost(h string) string {
+	if strings.LastIndex(h, ":") > strings.LastIndex(h, "]") {
+		return strings.TrimSuffix(h, ":")
+	}
+	return h
 }
 
 func c19Creds(r *rand.Rand, tag string) (string, string) {
@@ -380,13 +433,21 @@ func c19Creds(r *rand.Rand, tag string) (string, string) {
 func c19RepoURL(r *rand.Rand) (string, string, string) {
 	scheme := []string{"http", "https"}[r.Intn(2)]
 	host := c19Hosts[r.Intn(len(c19Hosts))]
-	switch r.Intn(8) {
+	switch r.Intn(10) {
 	case 0:
 		host += ":8080"
 	case 1:
 		host += ":" + c19DefaultPort(scheme)
 	case 2:
 		host = "ru:rp@" + host
+	case 3:
+		host += ":" + c19DefaultPort(c19FlipScheme(scheme)) // e.g. http://host:443
+	case 4:
+		if r.Intn(2) == 0 {
+			scheme = strings.ToUpper(scheme)
+		} else {
+			host += ":"
+		}
 	}
 	path := []string{"", "/", "/charts", "/charts/", "/a/b"}[r.Intn(5)]
 	return scheme, host, path
@@ -465,12 +526,12 @@ func c19Gen(r *rand.Rand, kind string) c19Case {
 		if k > 0 {
 			s, h, p = c19RepoURL(r)
 			if h == host {
-				h = "second." + h
+				h = c19OtherHost("second", h)
 			}
 			// entries must stay distinct under urlutil.Equal (findChartURL ranges over a map)
 			for _, prev := range c.Repos {
 				if downloader.VerifURLEqual(prev.URL, s+"://"+h+p) {
-					h = fmt.Sprintf("r%d.", k) + strings.TrimPrefix(h, "ru:rp@")
+					h = c19OtherHost(fmt.Sprintf("r%d", k), strings.TrimPrefix(h, "ru:rp@"))
 				}
 			}
 		}
@@ -575,7 +636,7 @@ func c19Gen(r *rand.Rand, kind string) c19Case {
 	}
 	if r.Intn(12) == 0 {
 		if u, err := url.Parse(resolved); err == nil {
-			c.Missing = append(c.Missing, u.Host+u.Path)
+			c.Missing = append(c.Missing, c19WireHost(u.Host)+u.Path)
 		}
 	}
 	return c
@@ -595,7 +656,7 @@ func c19MaybeRedirect(r *rand.Rand, c *c19Case, href string) {
 	if i := strings.LastIndex(h2, "@"); i >= 0 {
 		h2 = h2[i+1:]
 	}
-	c.Redirect[u.Host+u.Path] = s2 + "://" + h2 + "/_landed/a-1.0.0.tgz"
+	c.Redirect[c19WireHost(u.Host)+u.Path] = s2 + "://" + h2 + "/_landed/a-1.0.0.tgz"
 }
 
 func (*c19) Decode(raw json.RawMessage) (any, error) {
@@ -608,7 +669,10 @@ func (*c19) Exhaustive(tier string) []any {
 	// every ordered pair of origin spellings through the getter, pass-credentials off/on
 	sp := []string{"http://repo.example", "https://repo.example", "http://Repo.example", "http://repo.example:80",
 		"http://repo.example:8080", "https://repo.example:443", "http://x:y@repo.example", "http://repo.example.evil.test",
-		"http://evilrepo.example", "http://cdn.repo.example", "http://repo.example."}
+		"http://evilrepo.example", "http://cdn.repo.example", "http://repo.example.",
+		// default-port spellings of BOTH protocols under either scheme, empty port, upper-case scheme, IPv6
+		"http://repo.example:443", "https://repo.example:80", "http://repo.example:", "HTTP://repo.example",
+		"http://[::1]", "http://[::1]:80", "http://[::1]:443"}
 	var out []any
 	for _, a := range sp {
 		for _, b := range sp {
@@ -626,6 +690,27 @@ func (*c19) Exhaustive(tier string) []any {
 
 func (*c19) Corpus() []any {
 	return []any{
+		// the default port of the OTHER protocol is another service of the same host name
+		// (http://host:443 is not http://host; https://host:80 is not https://host)
+		c19Case{Kind: "getter", Ctor: []c19Opt{{K: "url", A: "http://repo.example/charts"}, {K: "auth", A: "user-g", B: "pw-g"}},
+			Gets: []c19Get{{Href: "http://repo.example:443/charts/a-1.0.0.tgz"}, {Href: "http://repo.example:80/charts/a-1.0.0.tgz"}}, Note: "defport-other"},
+		c19Case{Kind: "getter", Ctor: []c19Opt{{K: "url", A: "http://repo.example:443/charts"}, {K: "auth", A: "user-g", B: "pw-g"}},
+			Gets: []c19Get{{Href: "http://repo.example/charts/a-1.0.0.tgz"}, {Href: "http://repo.example:80/charts/a-1.0.0.tgz"}}, Note: "defport-other"},
+		c19Case{Kind: "getter", Ctor: []c19Opt{{K: "url", A: "https://repo.example/charts"}, {K: "auth", A: "user-g", B: "pw-g"}},
+			Gets: []c19Get{{Href: "https://repo.example:80/charts/a-1.0.0.tgz"}, {Href: "https://repo.example:443/charts/a-1.0.0.tgz"}}, Note: "defport-other"},
+		c19Case{Kind: "download", Ref: "private/a", Verify: 3, ProvOK: true, Repos: []c19Repo{
+			{Name: "private", URL: "https://private.corp.test/charts", User: "user-private", Pass: "pw-private", URLs: []string{"https://private.corp.test:80/charts/a-1.0.0.tgz"}}},
+			Note: "defport-other"},
+		c19Case{Kind: "manager", DepRepo: "http://private.corp.test:443/charts", SkipUpdate: true, Repos: []c19Repo{
+			{Name: "private", URL: "http://private.corp.test:443/charts", User: "user-private", Pass: "pw-private", URLs: []string{"http://private.corp.test/charts/a-1.0.0.tgz"}}},
+			Note: "defport-other"},
+		c19Case{Kind: "locate", Ref: "a", RepoURL: "http://private.corp.test/charts", User: "user-cli", Pass: "pw-cli",
+			AdhocURLs: []string{"http://private.corp.test:443/charts/a-1.0.0.tgz"}, Note: "defport-other"},
+		c19Case{Kind: "pull", Ref: "a", RepoURL: "https://private.corp.test:80/charts", User: "user-cli", Pass: "pw-cli",
+			AdhocURLs: []string{"https://private.corp.test/charts/a-1.0.0.tgz"}, Note: "defport-other"},
+		// IPv6 literal, userinfo, upper-case scheme, empty port
+		c19Case{Kind: "getter", Ctor: []c19Opt{{K: "url", A: "HTTP://u:p@[::1]:8080/charts"}, {K: "auth", A: "user-g", B: "pw-g"}},
+			Gets: []c19Get{{Href: "http://[::1]:8080/charts/a-1.0.0.tgz"}, {Href: "http://[::1]/charts/a-1.0.0.tgz"}, {Href: "http://[::1]:/charts/a-1.0.0.tgz"}}, Note: "ipv6"},
 		// no URL configured at all: nothing may be attached
 		c19Case{Kind: "getter", Ctor: []c19Opt{{K: "auth", A: "user-g", B: "pw-g"}}, Gets: []c19Get{{Href: "http://repo.example/a-1.0.0.tgz"}}},
 		// options persist in the getter across Get calls
@@ -993,6 +1078,11 @@ func c19Origin(scheme, host string) string {
 	if i := strings.LastIndex(host, ":"); i >= 0 && !strings.HasSuffix(host, "]") {
 		name, port = host[:i], host[i+1:]
 	}
+	if z := strings.TrimLeft(port, "0"); z != "" || port == "" {
+		port = z // a port is a number: leading zeros do not matter
+	} else {
+		port = "0"
+	}
 	if port == "" {
 		port = c19DefaultPort(scheme)
 	}
@@ -1139,7 +1229,7 @@ func (*c19) Oracle(ci, oi any) []hx.Violation {
 				// the Get this request belongs to: the next one whose URL names this host and
 				// path (a Get whose URL does not parse makes no request at all)
 				for gi++; gi < len(c.Gets); gi++ {
-					if u, err := url.Parse(c.Gets[gi].Href); err == nil && u.Host == rq.Host && u.Path == rq.Path {
+					if u, err := url.Parse(c.Gets[gi].Href); err == nil && c19WireHost(u.Host) == rq.Host && u.Path == rq.Path {
 						break
 					}
 				}
